@@ -15,9 +15,12 @@ use std::collections::{BTreeMap, BTreeSet, VecDeque};
 pub enum TSt {
     NotSpawned,
     Idle,
-    /// inside operation `pc` (label), `micro` micro-ops done, `ran`: has had a step of its own
-    /// since the operation started (its choice point is behind it)
-    Pending { micro: u8, ran: bool },
+    /// inside operation `label`, `micro` micro-ops done, `tries`: number of own steps (capped at
+    /// 2) since the operation started in which it did not complete. The runtime may keep a task
+    /// runnable for one extra step after a failed attempt (a stale wake flag makes `block_on`
+    /// poll once more), so a pending task whose guard is false *may* be offered while tries < 2
+    /// and must not be offered afterwards; it *must* be offered whenever its guard is true.
+    Pending { micro: u8, tries: u8 },
     Exiting,
     Done,
 }
@@ -63,11 +66,14 @@ pub struct MBar {
     pub generations: u32,
 }
 
-#[derive(Clone, Debug, PartialEq, Eq, PartialOrd, Ord, Hash)]
-pub enum MOnce {
-    New,
-    Running(usize),
-    Done,
+/// Once cell: `phase` 0 = new, 1 = an initialiser is running, 2 = complete (is_completed is
+/// true); `lock` = the caller currently inside the cell's critical section (callers that did not
+/// find the cell complete on entry pass through it one at a time; the initialising call holds it
+/// from winning the race until it returns).
+#[derive(Clone, Debug, PartialEq, Eq, PartialOrd, Ord, Hash, Default)]
+pub struct MOnce {
+    pub phase: u8,
+    pub lock: Option<usize>,
 }
 
 #[derive(Clone, Debug, PartialEq, Eq, PartialOrd, Ord, Hash, Default)]
@@ -154,7 +160,7 @@ pub fn init_state(p: &Program) -> MState {
         rw: vec![MRw::default(); p.res.rwlocks],
         cv: vec![vec![]; p.res.condvars],
         bar: p.res.barriers.iter().map(|b| MBar { bound: *b, ..Default::default() }).collect(),
-        once: vec![MOnce::New; p.res.onces],
+        once: vec![MOnce::default(); p.res.onces],
         atom: vec![0; p.res.atomics],
         chan: (0..p.res.chans.len())
             .map(|c| MChan {
@@ -353,26 +359,46 @@ pub fn micro(s: &MState, t: usize, op: &Op, j: u8, uv: u64) -> Option<Vec<Out>> 
             }
         },
         Op::CallOnce(o, _) => match j {
-            0 => match &s.once[*o] {
-                MOnce::Done => done(n, ex("")),
-                MOnce::Running(u) if *u != t => None,
-                MOnce::Running(_) => Some(vec![Out::Cont(n)]),
-                MOnce::New => {
-                    n.once[*o] = MOnce::Running(t);
+            // entry (executed eagerly in the step that starts the operation): a completed cell returns at once
+            0 => {
+                if s.once[*o].phase == 2 {
+                    done(n, ex(""))
+                } else {
                     Some(vec![Out::Cont(n)])
                 }
-            },
-            _ => {
-                if s.once[*o] == MOnce::Running(t) {
-                    n.once[*o] = MOnce::Done;
-                    done(n, ex(""))
+            }
+            // enter the cell's critical section
+            1 => {
+                if s.once[*o].lock.is_some() {
+                    return None;
+                }
+                n.once[*o].lock = Some(t);
+                if s.once[*o].phase == 0 {
+                    n.once[*o].phase = 1;
+                    Some(vec![Out::Cont(n)])
+                } else {
+                    // already complete: skip the initialiser
+                    n.tasks[t].st = TSt::Pending { micro: 2, tries: 0 };
+                    Some(vec![Out::Cont(n)])
+                }
+            }
+            // micro 2 is the initialiser body: executed by the logged "J" event (or skipped, see above)
+            2 => {
+                if s.once[*o].phase == 2 && s.once[*o].lock == Some(t) {
+                    Some(vec![Out::Cont(n)])
                 } else {
                     None
                 }
             }
+            _ => {
+                if s.once[*o].lock == Some(t) {
+                    n.once[*o].lock = None;
+                }
+                done(n, ex(""))
+            }
         },
         Op::IsCompleted(o) => {
-            let r = (s.once[*o] == MOnce::Done).to_string();
+            let r = (s.once[*o].phase == 2).to_string();
             done(n, Res::Exact(r))
         }
         Op::ALoad(a) => {
@@ -522,11 +548,11 @@ pub fn micro(s: &MState, t: usize, op: &Op, j: u8, uv: u64) -> Option<Vec<Out>> 
             }
         },
         Op::UnparkChild(slot) => match s.tasks[t].handles.get(*slot) {
-            Some((b, _)) => {
+            Some((b, false)) => {
                 unpark(&mut n, *b);
                 done(n, ex("ok"))
             }
-            None => done(n, ex("skip")),
+            _ => done(n, ex("skip")),
         },
         Op::UnparkParent => match s.tasks[t].parent {
             Some(p) => {
@@ -578,12 +604,21 @@ pub fn guard_of_current(p: &Program, s: &MState, t: usize) -> bool {
     }
 }
 
-/// Is task `t` enabled (must be offered as runnable) in `s`?
+/// Must task `t` be offered as runnable in `s`?
 pub fn enabled(p: &Program, s: &MState, t: usize) -> bool {
     match &s.tasks[t].st {
         TSt::NotSpawned | TSt::Done => false,
         TSt::Idle | TSt::Exiting => true,
-        TSt::Pending { ran, .. } => !*ran || guard_of_current(p, s, t),
+        TSt::Pending { .. } => guard_of_current(p, s, t),
+    }
+}
+
+/// May task `t` be offered as runnable in `s`?
+pub fn may_run(p: &Program, s: &MState, t: usize) -> bool {
+    match &s.tasks[t].st {
+        TSt::NotSpawned | TSt::Done => false,
+        TSt::Idle | TSt::Exiting => true,
+        TSt::Pending { tries, .. } => *tries < 2 || guard_of_current(p, s, t),
     }
 }
 
@@ -667,7 +702,7 @@ fn advance_one(p: &Program, s0: &MState, t: usize, evs: &[&Event], out: &mut BTr
                             continue;
                         }
                         let mut n = s.clone();
-                        n.tasks[t].st = TSt::Pending { micro: 0, ran: false };
+                        n.tasks[t].st = TSt::Pending { micro: 0, tries: 0 };
                         n.tasks[t].label = e.op.clone();
                         stack.push((n, ei + 1, true));
                     }
@@ -681,7 +716,7 @@ fn advance_one(p: &Program, s0: &MState, t: usize, evs: &[&Event], out: &mut BTr
                     _ => {}
                 }
             }
-            TSt::Pending { micro: j, ran } => {
+            TSt::Pending { micro: j, tries } => {
                 let (op, uv) = match op_for_label(p, t, &task.label) {
                     Some(x) => x,
                     None => continue,
@@ -691,24 +726,34 @@ fn advance_one(p: &Program, s0: &MState, t: usize, evs: &[&Event], out: &mut BTr
                 if let Some(e) = next {
                     match e.kind.as_str() {
                         "I" => {
-                            // initialiser of a Once started: the model must have this task Running
+                            // initialiser of a Once started: this task must be the one Running
                             if let Op::CallOnce(o, _) = &op {
-                                if *j >= 1 && s.once[*o] == MOnce::Running(t) {
+                                if *j == 2 && s.once[*o].phase == 1 && s.once[*o].lock == Some(t) {
                                     *probes.entry("once_init_run".into()).or_insert(0) += 1;
                                     stack.push((s.clone(), ei + 1, started_here));
-                                } else if *j == 0 {
-                                    // fall through to execute micro 0 first (below)
+                                    continue;
+                                } else if *j < 2 {
+                                    // entry micro-ops must run first: handled below
                                 } else {
                                     continue;
                                 }
                             } else {
                                 continue;
                             }
-                            if *j >= 1 {
-                                continue;
-                            }
                         }
-                        "J" | "Y" | "P" | "F" => {
+                        "J" => {
+                            // initialiser returned: the Once becomes complete here (before call_once returns)
+                            if let Op::CallOnce(o, _) = &op {
+                                if *j == 2 && s.once[*o].phase == 1 && s.once[*o].lock == Some(t) {
+                                    let mut n = s.clone();
+                                    n.once[*o].phase = 2;
+                                    n.tasks[t].st = TSt::Pending { micro: 3, tries: *tries };
+                                    stack.push((n, ei + 1, started_here));
+                                }
+                            }
+                            continue;
+                        }
+                        "Y" | "P" | "F" => {
                             stack.push((s.clone(), ei + 1, started_here));
                             continue;
                         }
@@ -716,24 +761,19 @@ fn advance_one(p: &Program, s0: &MState, t: usize, evs: &[&Event], out: &mut BTr
                     }
                 }
                 // option: stop here (only when all events are consumed)
-                if ei >= evs.len() {
-                    if started_here && *j == 0 {
-                        // just started: choice point possibly still ahead
-                        let mut a = s.clone();
-                        a.tasks[t].st = TSt::Pending { micro: 0, ran: false };
-                        out.insert(a);
-                    }
+                let eager0 = matches!(op, Op::CallOnce(..)) && *j == 0;
+                if ei >= evs.len() && !eager0 {
                     let mut b = s.clone();
-                    b.tasks[t].st = TSt::Pending { micro: *j, ran: true };
+                    let nt = if started_here { 0 } else { (*tries + 1).min(2) };
+                    b.tasks[t].st = TSt::Pending { micro: *j, tries: nt };
                     out.insert(b);
                 }
-                let _ = ran;
                 // option: execute the next micro-op
                 if let Some(outs) = micro(&s, t, &op, *j, uv) {
                     for o in outs {
                         match o {
                             Out::Cont(mut n) => {
-                                n.tasks[t].st = TSt::Pending { micro: *j + 1, ran: true };
+                                n.tasks[t].st = TSt::Pending { micro: *j + 1, tries: *tries };
                                 stack.push((n, ei, started_here));
                             }
                             Out::Done(mut n, res) => {
@@ -839,13 +879,11 @@ pub fn lockstep(p: &Program, ex: &ExecTrace, ending: Option<&str>) -> Result<Loc
         let nb = p.bodies.len();
         let mut keep: BTreeSet<MState> = BTreeSet::new();
         let mut union_en: BTreeSet<usize> = BTreeSet::new();
-        let mut union_parked: BTreeSet<usize> = BTreeSet::new();
         for s in &set {
             let en: BTreeSet<usize> = (0..nb).filter(|t| enabled(p, s, *t) && !parked_waiting(s, *t)).collect();
             let pk: BTreeSet<usize> = (0..nb).filter(|t| parked_waiting(s, *t)).collect();
-            if en.is_subset(&offered_bodies) && blocked_bodies.is_subset(&pk) && pk.is_subset(&blocked_bodies.union(&offered_bodies).cloned().collect()) {
-                union_en.extend(en.iter().cloned());
-                union_parked.extend(pk.iter().cloned());
+            if en.is_subset(&offered_bodies) && blocked_bodies.is_subset(&pk) {
+                union_en.extend((0..nb).filter(|t| may_run(p, s, *t) && !parked_waiting(s, *t)));
                 keep.insert(s.clone());
             }
         }
